@@ -8,6 +8,10 @@
                                                                 -> [pull_loop] (fed, eof)
      yash-semantics/src/runner.rs        read_eval_loop_impl    -> [iter], [loop]
      yash-cli/src/startup/input.rs       prepare_input          -> [source]
+     yash-builtin/src/eval.rs            main (Memory input, RunReadEvalLoop)
+     yash-builtin/src/source/semantics.rs  Command::execute (FdReader2 on a new descriptor)
+                                                                -> [CNest], [op_nest], [nest_with],
+                                                                   [loopx], [byte_ops_at]
 
    The kernel side is a descriptor whose remaining data is a list of chunks
    ([dev]); one [read] of one byte returns the first byte of the first
@@ -30,6 +34,12 @@ Definition BSL : N := 92.
 (* ------------------------------------------------------------------ *)
 (* Commands (the part of the language the scripts of the check use).   *)
 
+(* The input of a nested read-eval loop: `eval` runs the loop over a Memory
+   input holding the joined operands (lines as Memory::next_line cuts them);
+   `.` runs it over FdReader2 on a descriptor the built-in opens on the file
+   (yash-builtin/src/source/semantics.rs), whose bytes are given here. *)
+Inductive nsrc := NMem (ls : list line) | NFile (b : list N).
+
 Inductive cmd :=
 | CNop                                  (* empty line / comment *)
 | CStatus (n : N)                       (* true, false, unknown utility (127) *)
@@ -47,7 +57,8 @@ Inductive cmd :=
 | COr (a b : cmd)
 | CNot (a : cmd)
 | CIf (c t e : cmd)
-| CSub (a : cmd).                       (* ( a ) *)
+| CSub (a : cmd)                        (* ( a ) *)
+| CNest (s : nsrc).                     (* eval TEXT / . FILE: a nested read-eval loop *)
 
 (* The part of the shell state the parser reads, re-read at every iteration
    of the read-eval loop. *)
@@ -200,16 +211,50 @@ Definition slurp_all (d : dev) : str * dev * N :=
 (* ------------------------------------------------------------------ *)
 (* The machine, generic in how input is represented.                   *)
 
+Record xstate {I : Type} := mkX { x_sh : sh; x_in : I; x_off : N; x_evs : list event }.
+
+Arguments mkX {I}.
+Arguments x_sh {I}.
+Arguments x_in {I}.
+Arguments x_off {I}.
+Arguments x_evs {I}.
+
+Section XState.
+  Context {I : Type}.
+  Local Notation xstate := (@xstate I).
+  Definition x_status (x : xstate) : N := s_status (x_sh x).
+  Definition with_status (n : N) (x : xstate) : xstate :=
+    mkX (mkSh (s_ps (x_sh x)) (s_vars (x_sh x)) n) (x_in x) (x_off x) (x_evs x).
+  Definition emit (kind : N) (args : list str) (off : N) (x : xstate) : xstate :=
+    mkX (x_sh x) (x_in x) (x_off x) (x_evs x ++ [Ev kind args (x_status x) off]).
+End XState.
+
+(* How a command that ran a nested loop ends is carried by the exit flag and
+   the exit status: statuses of real commands are below 256;
+   256 + s: the nested loop was interrupted with status s (syntax error in the
+            nested text: Divert::Interrupt(Some(ExitStatus::ERROR)), s = 2);
+   512 + t: the model cannot say (t = 3 stuck, 4 parser table has no entry,
+            5 out of fuel / nesting deeper than the level of the model). *)
+Definition ST_INTR : N := 256.
+Definition ST_ABN : N := 512.
+
+(* nesting level exhausted: the distinct out-of-fuel value of [exec] *)
+Definition nest_stub {I : Type} (s : nsrc) (x : @xstate I) : @xstate I * bool :=
+  (with_status (ST_ABN + 5) x, true).
+
 Record input_ops (I SRC : Type) := mkOps {
   (* script source, standard input -> line ([] = end), new source, new
      standard input, bytes taken from standard input *)
   op_pull : SRC -> I -> line * SRC * I * N;
   op_read : bool -> N -> I -> list (N * bool) * bool * I * N;
-  op_slurp : I -> str * I * N
+  op_slurp : I -> str * I * N;
+  (* eval / dot: runs the nested read-eval loop on the given input *)
+  op_nest : nsrc -> @xstate I -> @xstate I * bool
 }.
 Arguments op_pull {I SRC}.
 Arguments op_read {I SRC}.
 Arguments op_slurp {I SRC}.
+Arguments op_nest {I SRC}.
 
 (* Where the script comes from (yash-cli/src/startup/input.rs). *)
 Inductive source :=
@@ -232,7 +277,7 @@ Definition byte_pull (s : source) (i : dev) : line * source * dev * N :=
   | SrcMem (l :: ls) => (l, SrcMem ls, i, 0%N)
   end.
 
-Definition byte_ops : input_ops dev source := mkOps dev source byte_pull read_text slurp_all.
+Definition byte_ops : input_ops dev source := mkOps dev source byte_pull read_text slurp_all nest_stub.
 
 Inductive ftag := FEnd | FSyntax | FExit | FStuck | FUnknown | FOutOfFuel.
 
@@ -244,13 +289,7 @@ Section Machine.
      one last; fed = the lines pulled since then. *)
   Context {I SRC : Type} (ops : input_ops I SRC) (parser : list pstate -> list line -> pres).
 
-  Record xstate := mkX { x_sh : sh; x_in : I; x_off : N; x_evs : list event }.
-
-  Definition x_status (x : xstate) : N := s_status (x_sh x).
-  Definition with_status (n : N) (x : xstate) : xstate :=
-    mkX (mkSh (s_ps (x_sh x)) (s_vars (x_sh x)) n) (x_in x) (x_off x) (x_evs x).
-  Definition emit (kind : N) (args : list str) (off : N) (x : xstate) : xstate :=
-    mkX (x_sh x) (x_in x) (x_off x) (x_evs x ++ [Ev kind args (x_status x) off]).
+  Local Notation xstate := (@xstate I).
 
   (* result: new state, true if the shell exits *)
   Fixpoint exec (c : cmd) (x : xstate) : xstate * bool :=
@@ -306,6 +345,7 @@ Section Machine.
         let (x1, _) := exec a x in
         (mkX (mkSh (s_ps (x_sh x)) (s_vars (x_sh x)) (x_status x1)) (x_in x1) (x_off x1) (x_evs x1),
          false)
+    | CNest s => op_nest ops s x
     end.
 
   (* The state of the read-eval loop between two iterations.  [m_eof] is
@@ -385,6 +425,45 @@ Section Machine.
              end
     end.
 
+  (* The same loop, returning the whole state it ends in (what a nested loop
+     hands back to the command that ran it). *)
+  Definition iterx (pf : nat) (m : mstate) : mstate + (ftag * xstate) :=
+    let x := m_x m in
+    let sts := (if m_pend m then m_hist m else []) ++ [s_ps (x_sh x)] in
+    let '(ph, (fed', src', inp', off', eof')) :=
+      parse_phase pf sts (m_pend m) (m_fed m) (m_src m) (x_in x) (x_off x) (m_eof m) in
+    let x' := mkX (x_sh x) inp' off' (x_evs x) in
+    match ph with
+    | PhDone (PComplete c pend) =>
+        let (x2, exited) := exec c x' in
+        if exited then inr (FExit, x2)
+        else inl (mkM x2 src' eof' pend (if pend then fed' else []) (if pend then sts else []))
+    | PhDone PEnd => inr (FEnd, x')
+    | PhDone PError => inr (FSyntax, with_status 2 x')
+    | PhDone PUnknown => inr (FUnknown, with_status 0 x')
+    | PhDone PNeedMore => inr (FStuck, with_status 0 x')
+    | PhStuck => inr (FStuck, with_status 0 x')
+    | PhOutOfFuel => inr (FOutOfFuel, with_status 0 x')
+    end.
+
+  Fixpoint loopx (fuel pf : nat) (m : mstate) : ftag * xstate :=
+    match fuel with
+    | O => (FOutOfFuel, with_status 0 (m_x m))
+    | S f => match iterx pf m with
+             | inl m' => loopx f pf m'
+             | inr r => r
+             end
+    end.
+
+  Fixpoint iterx_n (n pf : nat) (m : mstate) : mstate + (ftag * xstate) :=
+    match n with
+    | O => inl m
+    | S k => match iterx pf m with
+             | inl m' => iterx_n k pf m'
+             | inr r => inr r
+             end
+    end.
+
   (* the state after [n] complete iterations, if the loop gets that far *)
   Fixpoint iter_n (n pf : nat) (m : mstate) : mstate + final :=
     match n with
@@ -402,11 +481,6 @@ Section Machine.
     loop fuel pf (init src inp).
 End Machine.
 
-Arguments mkX {I}.
-Arguments x_sh {I}.
-Arguments x_in {I}.
-Arguments x_off {I}.
-Arguments x_evs {I}.
 Arguments mkM {I SRC}.
 Arguments m_x {I SRC}.
 Arguments m_src {I SRC}.
@@ -414,6 +488,50 @@ Arguments m_eof {I SRC}.
 Arguments m_pend {I SRC}.
 Arguments m_fed {I SRC}.
 Arguments m_hist {I SRC}.
+
+(* ------------------------------------------------------------------ *)
+(* Nested read-eval loops (yash-builtin/src/eval.rs, source/semantics.rs):
+   the built-in builds a NEW lexer on its own input and runs the same
+   read_eval_loop on the same environment; standard input is not touched by
+   the nested lexer, only by the commands it runs.  What the loop returns
+   becomes the built-in's result: Continue -> the exit status the loop left
+   (0 if the input was empty: `executed` is false), Break(divert) -> passed on. *)
+Definition nest_result {I : Type} (r : ftag * @xstate I) : @xstate I * bool :=
+  let (t, x) := r in
+  match t with
+  | FEnd => (x, false)
+  | FExit => (x, true)
+  | FSyntax => (with_status (ST_INTR + x_status x) x, true)
+  | FStuck => (with_status (ST_ABN + 3) x, true)
+  | FUnknown => (with_status (ST_ABN + 4) x, true)
+  | FOutOfFuel => (with_status (ST_ABN + 5) x, true)
+  end.
+
+Definition nsrc_empty (s : nsrc) : bool :=
+  match s with NMem [] | NFile [] => true | _ => false end.
+
+Definition nest_with {I SRC : Type} (ops : input_ops I SRC)
+    (parser : list pstate -> list line -> pres) (mksrc : nsrc -> SRC) (fuel pf : nat)
+    (s : nsrc) (x : @xstate I) : @xstate I * bool :=
+  if nsrc_empty s then (with_status 0 x, false)
+  else nest_result (loopx ops parser fuel pf (mkM x (mksrc s) false false [] [])).
+
+Definition byte_src (s : nsrc) : source :=
+  match s with NMem ls => SrcMem ls | NFile b => SrcOwn [b] end.
+
+(* level 0 = [byte_ops]: nested loops are not entered; level S k runs them
+   with the operations of level k *)
+Fixpoint byte_ops_at (parser : list pstate -> list line -> pres) (fuel pf lvl : nat)
+  : input_ops dev source :=
+  mkOps dev source byte_pull read_text slurp_all
+    (match lvl with
+     | O => nest_stub
+     | S k => nest_with (byte_ops_at parser fuel pf k) parser byte_src fuel pf
+     end).
+
+Definition nmodel_run (parser : list pstate -> list line -> pres) (lvl fuel pf : nat)
+    (src : source) (stdin : dev) : final :=
+  run (byte_ops_at parser fuel pf lvl) parser fuel pf src stdin.
 
 (* The MODEL: the machine over chunked descriptors read byte by byte. *)
 Definition model_run (parser : list pstate -> list line -> pres) (fuel pf : nat)
